@@ -171,3 +171,19 @@ Proof.
   intros []. constructor; auto; cbn.
   intros b. unfold updf. rewrite veqb_aval. destruct (actor_eqb b a); auto.
 Qed.
+
+(** ---- the part of the state the USE of the trace number lives in: LocalTraceFunc._map (trace number -> the
+    trace function of its own Pdb), the objects created so far, the closure held by PdbInstanceFactory.
+    None of the numbering methods touches it ([rest_of] is what every numbering lemma preserves). *)
+Definition pview (st : istate) :=
+  (i_dicts st Local "_map", i_nobj st, i_kinds st Local "_map", i_attrs st PdbFactory "_factory").
+Definition rest_of (st : istate) := (i_out st, pview st).
+Lemma rest_out a b : rest_of a = rest_of b -> i_out a = i_out b.
+Proof. intros H. exact (f_equal fst H). Qed.
+Lemma rest_pv a b : rest_of a = rest_of b -> pview a = pview b.
+Proof. intros H. exact (f_equal snd H). Qed.
+
+Lemma Rst_local_entry lt lm st s k v : Rst lt lm st s -> Rst lt lm (set_entry st (Local, "_map"%string) k v) s.
+Proof. intros []. constructor; auto. Qed.
+Lemma Rst_new_obj lt lm st s : Rst lt lm st s -> Rst lt lm (fst (new_obj st)) s.
+Proof. intros []. constructor; auto. Qed.
